@@ -206,7 +206,7 @@ class ExprMixin:
             # instances whose resolved method is the one defined in c
             subs = [k for k in self.w.subclasses(c) if (self.w.find_method(k, attr) or (None,))[0] == c]
             cond = z3.And(V.is_obj(o), z3.Or([clsof(V.ref(o)) == self.cid(k) for k in subs]))
-            a, rest = self.split(rest, cond)
+            a, rest = self.split(rest, cond, strong=True)
             if a is not None:
                 if self.w.is_property(c, attr):
                     out.extend(self.call_method(a, o, c, attr, [], {}))
@@ -329,6 +329,20 @@ class ExprMixin:
                 return z3.BoolVal(a.name == b.name)
             if isinstance(a, Static) and isinstance(b, Static):
                 raise Unsupported('== on statics')
+            cls_, v = (a, b) if isinstance(a, SClass) else (b, a)
+            if isinstance(cls_, SClass) and not isinstance(v, Static):
+                # type(x) is C / type(x) == C : exact class test on the object type() was applied to
+                of = self.get(st, v, '$of')
+                exact = {'object': z3.And(V.is_obj(of), clsof(V.ref(of)) == self.cid('object')),
+                         'str': V.is_str(of), 'dict': z3.Or(V.is_dict(of), z3.And(V.is_obj(of), clsof(V.ref(of)) == self.cid('dict'))),
+                         'list': z3.Or(V.is_list(of), z3.And(V.is_obj(of), clsof(V.ref(of)) == self.cid('list')))}
+                if cls_.name in exact:
+                    e = exact[cls_.name]
+                elif cls_.name in self.w.ids:
+                    e = z3.And(V.is_obj(of), clsof(V.ref(of)) == self.cid(cls_.name))
+                else:
+                    raise Unsupported('type() compared with %s' % cls_.name)
+                return z3.And(V.is_obj(v), clsof(V.ref(v)) == self.cid('$Type'), e)
             return z3.BoolVal(False)
         # container objects compare by content; other objects by identity unless the class defines __eq__
         ca, cb = self.is_container_obj(a), self.is_container_obj(b)
@@ -343,7 +357,7 @@ class ExprMixin:
                 rest = st
                 for c in self.method_classes('__eq__'):
                     cond = self.isinst(a, c)
-                    x, rest = self.split(rest, cond)
+                    x, rest = self.split(rest, cond, strong=True)
                     if x is not None:
                         for s2, k, v in self.call_method(x, a, c, '__eq__', [b], {}):
                             out.append((s2, k, mk_bool(z3.Not(self.truth(s2, v))) if (neg and k == 'ok') else v))
@@ -441,7 +455,7 @@ class ExprMixin:
             if x is not None:
                 out.extend(self.stubs.call('str.__mod__', self, x, [a, b], {}))
             if rest is not None:
-                raise Unsupported('% on non-string')
+                self.unsupported(rest, '% on non-string')
             return out
         if isinstance(op, ast.Add):
             out = []
@@ -689,7 +703,7 @@ class ExprMixin:
         out = []
         rest = st
         for c in self.method_classes('__missing__'):
-            x, rest = self.split(rest, self.isinst(o, c))
+            x, rest = self.split(rest, self.isinst(o, c), strong=True)
             if x is not None:
                 out.extend(self.call_method(x, o, c, '__missing__', [i], {}))
             if rest is None:
